@@ -391,6 +391,24 @@ def rule_counter_reset_and_context(ctx: Ctx) -> None:
     ctx.ob("C03-3", "G2", init, resets[0], not bad,
            "each Simulation starts its tie-break indices afresh: reset_event_counter() precedes every statement of __init__ that can construct or push an Event"
            + ("" if not bad else f" — not before line {bad[0].lineno}"))
+    # the process-wide counter never moves backwards except at the documented reset: events of *another* Simulation alive in the same process
+    # (built, not yet run) already hold indices from it, and a later event of that Simulation must sort after them
+    n_gw = 0
+    for fn in prog.all_functions("happysimulator/core/"):
+        for st in walk_scope(fn.node, include_root=False):
+            if isinstance(st, (ast.Assign, ast.AugAssign)) and any(path_of(t_) == "_global_event_counter" for t_ in (st.targets if isinstance(st, ast.Assign) else [st.target])):
+                n_gw += 1
+                v = st.value
+                start = v.args[0] if isinstance(v, ast.Call) and path_of(v.func) in ("count", "itertools.count") and v.args else None
+                if fn.name == "reset_event_counter":
+                    okg = isinstance(v, ast.Call) and path_of(v.func) in ("count", "itertools.count") and not v.args and not v.keywords
+                    msg = "reset_event_counter() is the one place where the process-wide counter restarts (at 0)"
+                else:
+                    okg = isinstance(start, ast.Call) and path_of(start.func) == "max" and any(
+                        "_global_event_counter" in unparse(a_) and ("__next__" in unparse(a_) or "next(" in unparse(a_)) for a_ in start.args)
+                    msg = f"{fn.qual}: the process-wide counter is only ever replaced by count(max(<its own next index>, …)) — it never moves backwards (found `{unparse(v)[:70]}`)"
+                ctx.ob("C03-3", "G6", fn, st, okg, msg)
+    need(n_gw >= 2, f"C03-3: expected >= 2 writes of the module counter in core/event.py, found {n_gw}")
     # loops only run inside the active simulation context
     for caller_q, callee in (("Simulation.run", "_run_loop"), ("Simulation._run_window", "_execute_until")):
         fn = prog.func(SIM, caller_q)
@@ -449,6 +467,14 @@ def rule_process_global_state(ctx: Ctx) -> None:
                     if isinstance(t, ast.Name) and st.value is not None and _kind_of_value(st.value)[0] in ("list", "dict", "set", "deque"):
                         cattrs[(c.name, t.id)] = st
         for fn in mod.all_functions:
+            # a memoising decorator is a process-wide container keyed by argument *equality* (1 == 1.0 == True share an entry): what an earlier
+            # simulation asked decides what a later one is told
+            for d in fn.node.decorator_list:
+                dn = path_of(d.func if isinstance(d, ast.Call) else d) or ""
+                if dn.split(".")[-1] in ("lru_cache", "cache", "cached") or dn in ("functools.lru_cache", "functools.cache"):
+                    ctx.ob("C03-4", "G7", fn, f"memoised by @{dn}", False,
+                           f"{fn.qual} is memoised by `@{dn}`: the cache lives as long as the interpreter and is looked up by equality of the arguments, so results of "
+                           "one simulation leak into the next (and keys that are equal but not identical are conflated)", node=fn.node)
             for n in walk_scope(fn.node, include_root=False):
                 recvs = []
                 if isinstance(n, ast.Call) and isinstance(n.func, ast.Attribute) and n.func.attr in MUTATORS:
@@ -509,6 +535,8 @@ def run(ctx: Ctx) -> None:
 CS_ = "happysimulator/components/datastore/cached_store.py"
 EP_ = "happysimulator/components/datastore/eviction_policies.py"
 MUTANTS = [
+    ("cms-hash-memoised", "happysimulator/sketching/count_min_sketch.py", "    def _hash(self, item: T, row: int) -> int:", "    @functools.lru_cache(maxsize=None)\n    def _hash(self, item: T, row: int) -> int:", "C03-4"),
+    ("global-counter-rebased-to-floor", "happysimulator/core/event.py", "    _global_event_counter = count(max(_global_event_counter.__next__(), floor))", "    _global_event_counter = count(floor)", "C03-3"),
     ("zipf-falls-back-to-global-rng", "happysimulator/distributions/zipf.py", "        self._rng = random.Random(seed)", "        self._rng = random.Random(seed) if seed else random", "C03-4"),
     ("random-eviction-unsorted-choice", EP_, "        key = self._rng.choice(sorted(self._keys))", "        key = self._rng.choice(list(self._keys))", "C03-2"),
     ("invalidate-all-iterates-set", CS_, "        for key in sorted(self._dirty_keys):\n            self._write_back_if_dirty(key)", "        for key in self._dirty_keys:\n            self._write_back_if_dirty(key)", "C03-2"),
